@@ -26,3 +26,6 @@ def rules(ctx):
     S.c06_r3_durable_drains(ctx)
     S.survey_residue_rules(ctx)
     S.restore_commit_rules(ctx)
+    S.untracked_allocation_rules(ctx)
+    S.after_bound_rules(ctx)
+    S.durability_guard_rules(ctx)
